@@ -5,6 +5,10 @@ checks, prints which of them raise a VIOLATION, and ALWAYS restores /repo afterw
 the patch added).  Never commits anything in /repo."""
 import subprocess, sys, os, re, json, time
 
+# background regressions run on a snapshot (vp run --with-repo): FQV_REPO and FQV_VERIF point at the copies; default is the real thing
+REPO = os.environ.get("FQV_REPO", "/repo")
+VERIF = os.environ.get("FQV_VERIF", "/verif")
+
 def sh(cmd, **kw):
     return subprocess.run(cmd, shell=isinstance(cmd, str), stdout=subprocess.PIPE, stderr=subprocess.STDOUT, text=True, **kw)
 
@@ -16,24 +20,24 @@ def main():
     run_tests = "--no-tests" not in a
     a = [x for x in a if x != "--no-tests"]
     patch, checks = os.path.abspath(a[0]), a[1:]
-    if sh("git -C /repo status --porcelain --untracked-files=no").stdout.strip():
+    if sh(f"git -C {REPO} status --porcelain --untracked-files=no").stdout.strip():
         print("refusing: /repo has uncommitted changes"); return 2
-    r = sh(f"git -C /repo apply --include='src/*' {patch}")
+    r = sh(f"git -C {REPO} apply --include='src/*' {patch}")
     if r.returncode != 0:
         # recorded against an earlier commit of /repo (only the guarded hook lines have changed since): three-way merge
-        r = sh(f"git -C /repo apply --3way --include='src/*' {patch}")
+        r = sh(f"git -C {REPO} apply --3way --include='src/*' {patch}")
         if r.returncode != 0 or "with conflicts" in r.stdout:
-            sh("git -C /repo reset -q --hard HEAD")
+            sh(f"git -C {REPO} reset -q --hard HEAD")
             print("patch does not apply:", r.stdout); return 2
     res = {"patch": patch, "tier": tier, "checks": {}}
     try:
         if run_tests:
-            t = sh("cd /repo && cargo test --workspace --no-fail-fast --offline 2>&1 | grep -E '^test result' | head -1")
+            t = sh(f"cd {REPO} && cargo test --workspace --no-fail-fast --offline 2>&1 | grep -E '^test result' | head -1")
             res["suite"] = t.stdout.strip()
             print("suite:", res["suite"])
         for c in checks:
             t0 = time.time()
-            r = sh(f"cd /verif && ./check {c} --tier {tier}", env=dict(os.environ, VERIF_SEED=os.environ.get("VERIF_SEED", "1")))
+            r = sh(f"cd {VERIF} && ./check {c} --tier {tier}", env=dict(os.environ, VERIF_SEED=os.environ.get("VERIF_SEED", "1")))
             viol = re.findall(r"VIOLATION property=(\S+) replay=(\S+)", r.stdout)
             why = re.findall(r"^\s+C\d+: .*$", r.stdout, re.M)
             res["checks"][c] = {"rc": r.returncode, "violations": len(viol), "why": why[:4], "wall_s": round(time.time() - t0, 1)}
@@ -41,8 +45,8 @@ def main():
             if r.returncode == 2:
                 print(r.stdout[-1500:])
     finally:
-        sh("git -C /repo reset -q --hard HEAD && git -C /repo clean -fdq -- src")
-        print("restored:", sh("git -C /repo status --porcelain --untracked-files=no").stdout.strip() or "clean")
+        sh(f"git -C {REPO} reset -q --hard HEAD && git -C {REPO} clean -fdq -- src")
+        print("restored:", sh(f"git -C {REPO} status --porcelain --untracked-files=no").stdout.strip() or "clean")
     print(json.dumps(res))
     return 0
 
